@@ -121,6 +121,10 @@ theorem readonly_refuses_mutations (cfg : Cfg) (h : cfg.readonly = true) (s : St
       apply withBucket_code; intro bk; split
       · exact errR_code_ne _
       · simp [verifyAccess_readonly_write cfg h bk w .writeAcp rfl, guard_some, errR_code_ne]
+    case putBucketAclGrants b gs =>
+      apply withBucket_code; intro bk; split
+      · exact errR_code_ne _
+      · simp [verifyAccess_readonly_write cfg h bk w .writeAcp rfl, guard_some, errR_code_ne]
     case deleteObjects b keys bp nvs =>
       apply withBucket_code; intro bk
       rw [batch_readonly cfg h]; simp [guard_some, errR_code_ne]
